@@ -134,3 +134,33 @@ Definition call_watchers (cfg_ws : list watcher) (kw_ws : option (list watcher))
            (sudo : option sudo_info) : list watcher :=
   match kw_ws with Some l => l | None => cfg_ws end
   ++ match sudo with Some su => [sudo_watcher su] | None => [] end.
+
+(** * The caller's input stream is at end-of-file ([in_stream=StringIO("")], [< /dev/null])
+
+    The stdin worker ([handle_stdin]) then closes the child's stdin straight away
+    (no pty).  Every later [write_proc_stdin] raises ValueError: the IO thread that
+    wanted to answer dies of it in the first read that has a response, nothing reaches
+    the child, and [_finish] raises ThreadException (before looking at watcher
+    errors).  F-C12d.  Defined on top of [run]: every read's writes are lost; a thread
+    that would have written something died of the ValueError instead. *)
+Definition nonempty_writes (l : list (list string)) : bool :=
+  existsb (fun o => match o with [] => false | _ => true end) l.
+
+Fixpoint pick_stream {A} (sid : bool) (sched : list event) (l : list A) : list A :=
+  match sched, l with
+  | (s, _) :: sched', x :: l' =>
+      if Bool.eqb s sid then x :: pick_stream sid sched' l' else pick_stream sid sched' l'
+  | _, _ => []
+  end.
+
+Definition run_eof (v : variant) (ws : list watcher) (sched : list event)
+  : list (list string) * (bool * bool) * bool :=
+  let '(w, r) := run v ws sched in
+  let broke_out := nonempty_writes (pick_stream false sched w) in
+  let broke_err := nonempty_writes (pick_stream true sched w) in
+  (map (fun _ => []) w,
+   (fst r && negb broke_out, snd r && negb broke_err),
+   broke_out || broke_err).
+
+Definition outcome_exn_eof (how : via) (raised : bool * bool) (broke : bool) : option exn :=
+  if broke then Some XThreadException else outcome_exn how raised.
